@@ -283,6 +283,10 @@ class Check(object):
         for (mod, qn), (a, b) in sess.it.functions_encoded.items():
             self.functions_encoded["%s:%s" % (mod, qn)] = [a, b]
         self.files.update(sess.it.files_read)
+        n = getattr(sess.it, "dict_order_iterations", 0)
+        if n:
+            # engine key order stands in for insertion order there (DESIGN.md section 10)
+            self.extra["iterations_over_dicts_with_symbolically_inserted_keys"] = self.extra.get("iterations_over_dicts_with_symbolically_inserted_keys", 0) + n
 
     def absorb_dict(self, d):
         """merge a worker's result dict"""
